@@ -23,6 +23,13 @@ import (
 
 type J = map[string]interface{}
 
+// floatText: the text sql.FloatVal prints for a float64 (the library value the model is compared with outside
+// its own domain; inside the domain model/Traceql.v computes it itself and the check compares both)
+func floatText(f float64) string {
+	s, _ := sql.NewFloatVal(f).String(nil)
+	return s
+}
+
 // ---------------------------------------------------------------- script -> JSON (model AST)
 func valJ(v traceql_parser.Value) J {
 	r := J{"t": v.TimeVal, "f": v.FVal, "s": nil, "unq": nil, "ffmt": nil, "dur": nil}
@@ -34,7 +41,7 @@ func valJ(v traceql_parser.Value) J {
 	}
 	if v.FVal != "" {
 		if f, err := strconv.ParseFloat(v.FVal, 64); err == nil {
-			r["ffmt"] = fmt.Sprintf("%f", f)
+			r["ffmt"] = floatText(f)
 		}
 	}
 	if v.TimeVal != "" {
@@ -65,10 +72,10 @@ func scriptJ(s *traceql_parser.TraceQLScript) interface{} {
 		cv := a.Num + a.Measurement
 		aj := J{"fn": a.Fn, "attr": a.Attr, "cmp": a.Cmp, "num": a.Num, "meas": a.Measurement, "ffmt": nil, "durf": nil}
 		if f, err := strconv.ParseFloat(cv, 64); err == nil {
-			aj["ffmt"] = fmt.Sprintf("%f", f)
+			aj["ffmt"] = floatText(f)
 		}
 		if d, err := time.ParseDuration(cv); err == nil {
-			aj["durf"] = fmt.Sprintf("%f", float64(d.Nanoseconds()))
+			aj["durf"] = floatText(float64(d.Nanoseconds()))
 		}
 		agg = aj
 	}
@@ -128,7 +135,7 @@ func tree(v reflect.Value) interface{} {
 	case "sql.IntVal":
 		return J{"k": "int", "v": strconv.FormatInt(f("val").Int(), 10)}
 	case "sql.FloatVal":
-		return J{"k": "float", "s": fmt.Sprintf("%f", f("val").Float())}
+		return J{"k": "float", "s": floatText(f("val").Float())}
 	case "sql.Col":
 		return J{"k": "col", "e": tree(f("expr")), "alias": f("alias").String()}
 	case "sql.OrderBy":
